@@ -622,18 +622,43 @@ def run(tier, seed, work, repo, suspects=None):
             return [(str(ci), ds, None)]
         # a crate that does not build: isolate the machines that do not compile (each is a
         # well-formed definition the macro should have handled) and keep going with the others
-        units = []
         groups = {}
         for x in ds:
             groups.setdefault(x.get('twin_of') or x['id'], []).append(x)
-        for gid, g in groups.items():
-            ok1, err1 = build_unit(f'{ci}_{g[0]["mod"]}', g, feature, target=str(ci))
-            if not ok1 and len(g) > 1:
+        def attempt(glist, tag):
+            """one crate with a binary per group; returns {group index: built?}, stderr"""
+            names = [f'u{tag}_{k}' for k in range(len(glist))]
+            cdir = os.path.join(root, f'crate{ci}{tag}')
+            T.write_multi_crate(cdir, [(names[k], [(x['mod'], T.module_code(x['mod'], x['def'], x['text'], x['info'])) for x in g])
+                                       for k, g in enumerate(glist)], repo, feature)
+            tdir = os.path.join(root, f'target{ci}')
+            _, err = T.build_multi_crate(cdir, tdir)
+            okk = {}
+            for k, nm in enumerate(names):
+                b = os.path.join(tdir, 'debug', nm)
+                okk[k] = os.path.exists(b)
+                if okk[k]:
+                    shutil.copy(b, os.path.join(root, f'bin{ci}_{nm}'))
+            return names, okk, err
+        def errs_of(err, nm):
+            keep = [blk for blk in err.split('\n\n') if f'src/bin/{nm}.rs' in blk]
+            return ('\n\n'.join(keep) or err)[-3000:]
+        glist = list(groups.values())
+        names, okk, err = attempt(glist, 'a')
+        units = []
+        retry = []
+        for k, g in enumerate(glist):
+            if okk[k]:
+                units.append((f'{ci}_{names[k]}', g, None))
+            elif len(g) > 1:
                 # a twin that does not build must not hide its base
-                base = [x for x in g if not x.get('twin_of')]
-                ok1, err1 = build_unit(f'{ci}_{g[0]["mod"]}', base, feature, target=str(ci))
-                g = base
-            units.append((f'{ci}_{g[0]["mod"]}', g, None if ok1 else err1))
+                retry.append(([x for x in g if not x.get('twin_of')], errs_of(err, names[k])))
+            else:
+                units.append((f'{ci}_{names[k]}', g, errs_of(err, names[k])))
+        if retry:
+            names2, okk2, err2 = attempt([g for g, _ in retry], 'b')
+            for k, (g, e1) in enumerate(retry):
+                units.append((f'{ci}_{names2[k]}', g, None if okk2[k] else errs_of(err2, names2[k])))
         return units
     with ThreadPoolExecutor(min(8, len(crates))) as ex:
         built = [u for us in ex.map(build, range(len(crates))) for u in us]
